@@ -39,7 +39,10 @@ RULE = ("random DAG workflows of 2-8 nodes (function nodes with 1-3 inputs fed b
         "workflow) as the checkpointing node under the protocols all/stated/root, some with a failing node as well; all "
         "attempts of one history share ONE directory; some nodes return their value wrapped in a closure (only cloudpickle "
         "can store it), incl. directed chains that fail before and again after such a node completed, so that recovery "
-        "files of both pickle flavours follow each other. "
+        "files of both pickle flavours follow each other; some node classes are made by a factory function (<locals>, graph "
+        "not import_ready); `prior` histories first run an EARLIER GENERATION of the same-labelled graph (same shape, importable "
+        "classes, other constants) in the same directory -- it fails / is checkpointed by the same node -- and the checkpoint "
+        "is loaded BY NAME from that directory. "
         "Non-trivial: at least one function completed before the cut and at least one after; distinct by content.")
 TRUSTED = ["harness FIFO simulation of the visiting order of each composite (validated by ordered call logs and image contents)",
            "checkpoint cut = copy of the checkpoint file taken inside the storage back end right after it is written"]
@@ -77,10 +80,13 @@ def _unwrap(v):
     return v() if callable(v) else v
 
 
+LOC = 2000      # a leaf with k >= LOC has a class made by a factory function (<locals>): the graph is not import_ready
+
+
 def _wrap(k, v):
     if BOX <= k < CLO:
         return Box(v)
-    if k < CLO:
+    if not CLO <= k < LOC:
         return v
 
     def held():     # a closure over v: fine for cloudpickle, impossible for plain pickle
@@ -101,6 +107,25 @@ def K2(tag, k, a, b):
 @as_function_node("y")
 def K3(tag, k, a, b, c):
     return _wrap(k, nodes.chk(tag, k, [_unwrap(a), _unwrap(b), _unwrap(c)]))
+
+
+def local_cls(n):
+    """a node class made to order: it lives in <locals>, cannot be imported, and only cloudpickle can store its nodes"""
+    if n == 1:
+        @as_function_node("y")
+        def KL1(tag, k, a):
+            return _wrap(k, nodes.chk(tag, k, [_unwrap(a)]))
+        return KL1
+    if n == 2:
+        @as_function_node("y")
+        def KL2(tag, k, a, b):
+            return _wrap(k, nodes.chk(tag, k, [_unwrap(a), _unwrap(b)]))
+        return KL2
+
+    @as_function_node("y")
+    def KL3(tag, k, a, b, c):
+        return _wrap(k, nodes.chk(tag, k, [_unwrap(a), _unwrap(b), _unwrap(c)]))
+    return KL3
 
 
 KCLS = {1: K1, 2: K2, 3: K3}
@@ -158,7 +183,8 @@ def _build_kids(parent, kidspecs, params):
         if ks[0] == "L":
             tag = _TAGS[0]
             _TAGS[0] += 1
-            node = KCLS[len(ins)](label=f"n{i}", tag=tag, k=ks[1], **kw)
+            cls = local_cls(len(ins)) if ks[1] >= LOC else KCLS[len(ins)]
+            node = cls(label=f"n{i}", tag=tag, k=ks[1], **kw)
         else:
             _PENDING.append(ks)
             node = GM[len(ins)](label=f"n{i}", **kw)
@@ -309,13 +335,23 @@ def fuel(case):
     return nbad(case["tree"]) + 2
 
 
+def gen1(tree):
+    """the earlier generation of the same-labelled graph: same shape, every class importable, other constants"""
+    def go(s):
+        if s[0] == "L":
+            return ["L", s[1] - LOC if s[1] >= LOC else s[1], [["c", i[1] + 1] if i[0] == "c" and i[1] >= 0 else i for i in s[2]]]
+        return ["M", s[1], [["c", i[1] + 1] if i[0] == "c" and i[1] >= 0 else i for i in s[2]], [go(k) for k in s[3]]]
+    return go(tree)
+
+
 def model_term(case):
     t = tree_coq(case["tree"])
+    g1 = f"(Some {tree_coq(gen1(case['tree']))})" if case.get("prior") else "None"
     if case["kind"] == "fail":
-        return f"obs_fail {cn(fuel(case))} {t}"
+        return f"obs_fail {cn(fuel(case))} {g1} {t}"
     pr = {"stated": "PStated", "all": "PAll", "root": "PRoot"}[case["proto"]]
     c = cl(cn(i) for i in mpath(case["tree"], case["cut"]))
-    return f"obs_ckpt {cn(fuel(case))} {pr} {c} {t}"
+    return f"obs_ckpt {cn(fuel(case))} {pr} {c} {g1} {t}"
 
 
 # ---- the implementation ---------------------------------------------------------------------------
@@ -422,7 +458,7 @@ def _all_nodes(tree, root):
     return [(p, s, at_node(root, p)) for p, s in walk(tree)]
 
 
-def _rounds(tree, cur, cap, workdir):
+def _rounds(tree, cur, cap, workdir, prior=None):
     """attempt after attempt in ONE directory, as a user would: the recovery file of a later failure has to
     replace that of an earlier one"""
     from pyiron_workflow import Workflow
@@ -430,6 +466,9 @@ def _rounds(tree, cur, cap, workdir):
     d = tempfile.mkdtemp(prefix="r", dir=workdir)
     os.chdir(d)
     rec = Path(d) / "wf" / "recovery"
+    if prior is not None:       # yesterday's version of the same workflow failed here and left its recovery file
+        _verdict(build(prior).run)
+        cur = build(tree)
     for _ in range(cap):
         nodes.CALLS.clear()
         v = _verdict(cur.run)
@@ -485,12 +524,17 @@ def _run_impl(case):
     workdir = tempfile.mkdtemp(prefix="c08_")
     try:
         nodes.reset()
+        prior = gen1(tree) if case.get("prior") else None
         if case["kind"] == "fail":
             wf = build(tree)
-            return {"rounds": _rounds(tree, wf, fuel(case), workdir), "twin": _twin(tree, workdir)}
+            return {"rounds": _rounds(tree, wf, fuel(case), workdir, prior), "twin": _twin(tree, workdir)}
         d = tempfile.mkdtemp(prefix="a", dir=workdir)
         snapdir = tempfile.mkdtemp(prefix="s", dir=workdir)
         os.chdir(d)
+        if prior is not None:       # yesterday's version was checkpointed by the same node in this directory
+            wf1 = build(prior)
+            at_node(wf1, case["cut"]).checkpoint = Snap(tempfile.mkdtemp(prefix="s", dir=workdir))
+            _verdict(wf1.run)
         wf = build(tree)
         at_node(wf, case["cut"]).checkpoint = Snap(snapdir)
         nodes.CALLS.clear()
@@ -498,12 +542,13 @@ def _run_impl(case):
         if not (Path(snapdir) / "calls.json").exists():
             return {"cut": False, "verdict": v}
         before = json.loads((Path(snapdir) / "calls.json").read_text())
+        ckfiles = sorted(f.name for f in (Path(d) / "wf").iterdir() if f.name.startswith("snap."))
+        loaded = Workflow("wf", autoload=None)
+        err = _verdict(lambda: loaded.load(filename=Path(d) / "wf" / "snap"))      # BY NAME, from where it was written
         shutil.rmtree(d, ignore_errors=True)
         os.chdir(workdir)
-        loaded = Workflow("wf", autoload=None)
-        err = _verdict(lambda: loaded.load(filename=Path(snapdir) / "snap"))
         if err != "ok":
-            return {"cut": True, "before": before, "image": None, "load_error": err}
+            return {"cut": True, "before": before, "ckfiles": ckfiles, "image": None, "load_error": err}
         image = snap(tree, loaded)
         at_node(loaded, case["cut"]).checkpoint = None
         _recover(tree, loaded)
@@ -512,7 +557,7 @@ def _run_impl(case):
                 n.running = False
         elif case["proto"] == "root":
             loaded.running = False
-        return {"cut": True, "before": before, "image": image, "rounds": _rounds(tree, loaded, fuel(case), workdir),
+        return {"cut": True, "before": before, "ckfiles": ckfiles, "image": image, "rounds": _rounds(tree, loaded, fuel(case), workdir),
                 "twin": _twin(tree, workdir)}
     finally:
         os.chdir(old)
@@ -557,9 +602,10 @@ def model_view(case, o):
         return [rounds(o["rounds"]), twin]
     if not o["cut"]:
         return ["nocut", o["verdict"]]
+    ck = [[[], f.split(".")[1]] if f in ("snap.pckl", "snap.cpckl") else ["file", f] for f in o["ckfiles"]]
     if o["image"] is None:
-        return ["cut", [mpath(tree, lp[t]) for t, ok in o["before"]], "unloadable"]
-    return ["cut", [mpath(tree, lp[t]) for t, ok in o["before"]], o["image"], rounds(o["rounds"]), twin]
+        return ["cut", [mpath(tree, lp[t]) for t, ok in o["before"]], ck, "unloadable"]
+    return ["cut", [mpath(tree, lp[t]) for t, ok in o["before"]], ck, o["image"], rounds(o["rounds"]), twin]
 
 
 # ---- the property, on the implementation's observation ---------------------------------------------------
@@ -667,6 +713,9 @@ def oracle(case, o):
         return _check_rounds(case, o, set(), None)
     if not o["cut"]:
         return None
+    if len(o["ckfiles"]) != 1:
+        return (f"checkpoint-files: after the checkpoint the directory holds {o['ckfiles']}, expected exactly one file of "
+                f"the checkpoint (an older generation's file must not outlive it)")
     if o["image"] is None:
         return f"checkpoint-unloadable: loading the checkpoint file raised {o['load_error']}"
     lp = leaf_paths(tree)
@@ -764,6 +813,19 @@ def with_clo(tree, rng, prob):
     return t
 
 
+def with_loc(tree, rng, prob):
+    """some leaves get a class made by a factory function (k >= LOC): the graph is not import_ready; at least one"""
+    t = json.loads(json.dumps(tree))
+    ls = [s for p, s in walk(t) if s[0] == "L"]
+    for s in ls:
+        if rng.random() < prob:
+            s[1] = LOC + s[1] % 100
+    if not any(s[1] >= LOC for s in ls):
+        s = rng.choice(ls)
+        s[1] = LOC + s[1] % 100
+    return t
+
+
 def gen_two_failures(rng):
     """a chain (with side branches) failing first BEFORE a closure-valued node completes and, after the resume,
     again AFTER it: the second recovery file has the other pickle flavour than the first"""
@@ -790,7 +852,13 @@ def gen_two_failures(rng):
             kids = kids[:cutat] + [["M", len(tail) - 1, [["u", cutat - 1]], tail]]
         else:
             return gen_two_failures(rng)
-    return {"kind": "fail", "tree": ["M", 0, [], kids]}
+    c = {"kind": "fail", "tree": ["M", 0, [], kids]}
+    r = rng.random()
+    if r < 0.25:
+        c["tree"] = with_loc(c["tree"], rng, 0.2)
+    if r < 0.4:
+        c["prior"] = True
+    return c
 
 
 def _neg(rng):
@@ -821,6 +889,13 @@ def cases_of(rng, tree, rich):
         for _ in range(3 if rich else 2):
             out.append({"kind": "fail", "tree": with_bad(with_clo(tree, rng, 0.4), rng.sample(lps, min(len(lps), rng.choice([2, 3]))), rng)})
         out.append({"kind": "ckpt", "tree": with_clo(tree, rng, 0.4), "cut": rng.choice(allp), "proto": "all"})
+    # two generations of the same label in one directory: the second has a node class only cloudpickle can store
+    for _ in range(3 if rich else 2):
+        t2 = with_loc(tree, rng, 0.3) if rng.random() < 0.8 else tree
+        out.append({"kind": "fail", "tree": with_bad(t2, rng.sample(lps, min(len(lps), rng.choice([1, 1, 2]))), rng), "prior": True})
+    for _ in range(3 if rich else 2):
+        t2 = with_loc(tree, rng, 0.3) if rng.random() < 0.8 else with_clo(tree, rng, 0.4)
+        out.append({"kind": "ckpt", "tree": t2, "cut": rng.choice(allp), "proto": "all", "prior": True})
     for p in allp:
         out.append({"kind": "ckpt", "tree": tree, "cut": p, "proto": "all"})
     for p in rng.sample(allp, min(len(allp), 3 if rich else 2)):
@@ -835,14 +910,14 @@ def cases_of(rng, tree, rich):
 def generate(ctx):
     rng = ctx.rng
     cases, seen = [], set()
-    for _ in range(ctx.n(60, 500)):
+    for _ in range(ctx.n(48, 500)):
         tree = gen_tree(rng)
         for c in cases_of(rng, tree, not ctx.quick):
             k = json.dumps(c, sort_keys=True)
             if k not in seen:
                 seen.add(k)
                 cases.append(c)
-    for _ in range(ctx.n(60, 600)):
+    for _ in range(ctx.n(50, 600)):
         c = gen_two_failures(rng)
         k = json.dumps(c, sort_keys=True)
         if k not in seen:
@@ -896,10 +971,12 @@ def shrink_candidates(case):
 
 
 def distribution(results):
-    d = {"fail": 0, "ckpt": 0, "interrupts": 0, "flavour_sequences": {}, "proto": {}, "depth_of_cut_or_failure": {}, "rounds": {}, "with_macros": 0, "nocut": 0,
+    d = {"fail": 0, "ckpt": 0, "two_generations": 0, "not_import_ready": 0, "interrupts": 0, "flavour_sequences": {}, "proto": {}, "depth_of_cut_or_failure": {}, "rounds": {}, "with_macros": 0, "nocut": 0,
          "nodes": {}}
     for c, enc, v, o in results:
         d[c["kind"]] += 1
+        d["two_generations"] += bool(c.get("prior"))
+        d["not_import_ready"] += any(s[0] == "L" and s[1] >= LOC for p, s in walk(c["tree"]))
         d["interrupts"] += any(s[0] == "L" and any(i == ["c", -6] for i in s[2]) for p, s in walk(c["tree"]))
         n = sum(1 for _ in walk(c["tree"])) - 1
         d["nodes"][n] = d["nodes"].get(n, 0) + 1
